@@ -9,7 +9,6 @@ INVARIANT InstFollowsClass
 INVARIANT AgreesWithIssubclass
 INVARIANT DistDefinedOnlyWhenMaybeSub_KnownGenericArgsOnly
 INVARIANT DistDefinedOnlyWhenMaybeSub_Other
-INVARIANT DistZeroOnIdentity_KnownUndefinedForNoneOrTuple
 INVARIANT DistZeroOnIdentity_Other
 INVARIANT Drift_Sub
 INVARIANT Drift_Maybe
